@@ -29,3 +29,61 @@ def _mutator(name):
 
 for _n in ("sort", "fill", "resize", "put", "partition", "itemset"):
     prim("ndarray." + _n)(_mutator(_n))
+
+
+# ---- C13: quantiles / reductions with NaN-aware columns --------------------------------------------------------------
+from z3 import ArraySort, BoolSort as _BoolSort, Lambda
+from .engine import ArrS, nan_of
+
+BArrS = ArraySort(IntSort(), _BoolSort())
+nanq = UF("nanq", ArrS, BArrS, IntSort(), RealSort(), RealSort())       # NaN-ignoring empirical quantile of a column
+isfinite_uf = UF("isfinite", RealSort(), _BoolSort())
+
+
+def column(ex, t, rest_idx):
+    from .prims import canon_lambda
+    from z3 import BoolVal
+
+    def nn(i):
+        n_ = nan_of(t.elem(i, *rest_idx))
+        return BoolVal(n_) if isinstance(n_, bool) else toB(n_)
+    return canon_lambda(lambda i: toR(t.elem(i, *rest_idx))), canon_lambda(nn), toI(t.axes[0].size)
+
+
+@prim("np.nanquantile")
+def p_nanquantile(ex, path, t, q=None, axis=None):
+    if axis != 0:
+        raise Unsupported("nanquantile axis")
+    t = as_tensor(ex, path, t)
+    qt = as_tensor(ex, path, q) if not isinstance(q, T) else q
+    rest = t.axes[1:]
+
+    def elem(*idx):
+        qi, yi = idx[:qt.ndim], idx[qt.ndim:]
+        vals, nans, n = column(ex, t, yi)
+        return nanq(vals, nans, n, toR(qt.elem(*qi)))
+    axes = tuple(qt.axes) + tuple(rest)
+    return T(axes, elem, kind="real") if axes else elem()
+
+
+@prim("np.isfinite")
+def p_isfinite(ex, path, x):
+    return lift(lambda v: isfinite_uf(toR(v)), x, kind="bool")
+
+
+def _nan_reduce(name):
+    def f(ex, path, x, axis=None):
+        x = as_tensor(ex, path, x)
+        if axis != 0 or x.axes[0].concrete():
+            raise Unsupported(name)
+        red = UF(name, ArrS, BArrS, IntSort(), RealSort())
+        rest = x.axes[1:]
+
+        def elem(*idx):
+            vals, nans, n = column(ex, x, idx)
+            return red(vals, nans, n)
+        return T(rest, elem, kind="real") if rest else elem()
+    return f
+
+
+PRIMS["np.nansum"] = _nan_reduce("nansum_red")
